@@ -1,214 +1,65 @@
-/-! # Model of `DFContainer.__getitem__` / `__setitem__` (compiler/core.py)
+/-! # Model of the block wiring of `compiler/cfg_compiler.py` (C03: `row_agreement`, `return_vars_order`)
 
-Executable, import-free, total.  Mirrors the Python (after fix commit 32e45a7 which makes
-`__setitem__` forget wires cached for enclosing structs/tuples):
-
-```python
-def __getitem__(self, place):
-    if place.id in self.locals: return self.locals[place.id]
-    elif struct: children = [FieldAccess(place, f) for f in fields]
-    elif tuple:  children = [TupleAccess(place, elem, idx) for idx, elem in enumerate(elems)]
-    else: raise InternalGuppyError("Couldn't obtain a port")
-    child_wires = [self[child] for child in children]
-    wire = self.builder.add_op(ops.MakeTuple(child_types), *child_wires)[0]
-    for child in children:
-        if child.ty.linear: self.locals.pop(child.id)        # KeyError if absent
-    self.locals[place.id] = wire
-    return wire
-
-def __setitem__(self, place, port):
-    enclosing = place
-    while isinstance(enclosing, FieldAccess | TupleAccess):
-        enclosing = enclosing.parent; self.locals.pop(enclosing.id, None)
-    is_return = isinstance(place, Variable) and is_return_var(place.name)
-    if struct-or-tuple and not is_return:
-        unpack = self.builder.add_op(ops.UnpackTuple(tys), port)
-        for child, child_port in zip(children, unpack): self[child] = child_port
-        self.locals.pop(place.id, None)
-    else: self.locals[place.id] = port
-```
-
-Abstractions: a place id is the list of selectors, innermost first, ending in the root variable
-(`x.f.g ↦ [g, f, x]`, exactly the nesting of `FieldAccess.Id(parent_id, field)`); a type is a
-tree whose leaves carry Guppy's `copyable` / `droppable` bits (`linear = ¬copyable ∧ ¬droppable`,
-as in tys/ty.py) and whose nodes are structs or tuples; a wire is (node index, out-port); the
-builder is a counter of the next node index plus the list of emitted ops. -/
+Import-free.  `compile_bb` decides in which order a basic block receives its live places (`inputs`) and
+in which order it hands places to each successor (`outputs`, plus the variant row of the branch
+`TupleSum` when the successors need different places); `sort_vars` / `compare_var` fix the order
+(key `(not droppable, str(place))`: droppable places first, then by name); `insert_return_vars`
+prepends the dummy return variables on edges into the exit block. -/
 namespace GuppyVerif.Wiring
 
-structure Wire where
-  node : Nat
-  port : Nat
+/-- a place as far as wiring is concerned: its printed form (`str(p)`, unique per place in a row) and
+    whether its type is droppable (non-droppable = linear: goes to the end) -/
+structure Place where
+  name : String
+  droppable : Bool
   deriving DecidableEq, Repr, Inhabited
 
-inductive Kind where
-  | struct | tuple
-  deriving DecidableEq, Repr, Inhabited
+/-- `compare_var p q == -1`: `(not p.ty.droppable, str(p)) < (not q.ty.droppable, str(q))` -/
+def keyLt (p q : Place) : Bool :=
+  (p.droppable && !q.droppable) || (p.droppable == q.droppable && decide (p.name < q.name))
 
-inductive Ty where
-  | leaf (copyable droppable : Bool)
-  | node (kind : Kind) (cs : List Ty)
+def insertVar (p : Place) : List Place → List Place
+  | [] => [p]
+  | q :: qs => if keyLt p q then p :: q :: qs else q :: insertVar p qs
+
+/-- `sort_vars(row)` = `sorted(row, key=cmp_to_key(compare_var))` (rows have pairwise distinct keys, for
+    which every correct sorting algorithm returns the same list) -/
+def sortVars (row : List Place) : List Place := row.foldr insertVar []
+
+/-- `{p.id for p in a} == {p.id for p in b}` -/
+def sameIds (a b : List Place) : Bool :=
+  a.all (fun p => b.any fun q => q.name == p.name) && b.all (fun p => a.any fun q => q.name == p.name)
+
+structure Sig where
+  inRow : List Place
+  outRows : List (List Place)
   deriving Repr, Inhabited
 
-mutual
-/-- `Type.copyable` (struct/tuple: all components copyable) -/
-def Ty.copyable : Ty → Bool
-  | .leaf c _ => c
-  | .node _ cs => allCopyable cs
-def allCopyable : List Ty → Bool
-  | [] => true
-  | t :: ts => t.copyable && allCopyable ts
-end
+/-- the order in which the block's input node provides the places (`inputs` in `compile_bb`) -/
+def blockInputs (isEntry : Bool) (s : Sig) : List Place :=
+  if isEntry then s.inRow else sortVars s.inRow
 
-mutual
-/-- `Type.droppable` (struct/tuple: all components droppable) -/
-def Ty.droppable : Ty → Bool
-  | .leaf _ d => d
-  | .node _ cs => allDroppable cs
-def allDroppable : List Ty → Bool
-  | [] => true
-  | t :: ts => t.droppable && allDroppable ts
-end
-
-/-- `Type.linear` in tys/ty.py: `not self.copyable and not self.droppable` -/
-def Ty.linear (t : Ty) : Bool := !t.copyable && !t.droppable
-
-abbrev PlaceId := List Nat
-
-abbrev Locals := PlaceId → Option Wire
-
-def Locals.empty : Locals := fun _ => none
-def Locals.set (L : Locals) (p : PlaceId) (w : Wire) : Locals := fun q => if q = p then some w else L q
-def Locals.pop (L : Locals) (p : PlaceId) : Locals := fun q => if q = p then none else L q
-
-/-- emitted builder ops; output wires are `⟨node, 0⟩` for `make`, `⟨node, i⟩ (i < arity)` for `unpack` -/
-inductive Op where
-  | make (node : Nat) (ins : List Wire)
-  | unpack (node : Nat) (inp : Wire) (arity : Nat)
-  deriving DecidableEq, Repr, Inhabited
-
-inductive Err where
-  | noPort (p : PlaceId)      -- InternalGuppyError("Couldn't obtain a port for ...")
-  | keyError (p : PlaceId)    -- `self.locals.pop(child.id)` on an absent key
-  deriving DecidableEq, Repr, Inhabited
-
-/-- `for child in children: if child.ty.linear: self.locals.pop(child.id)` (children `i, i+1, …`) -/
-def popLinear (L : Locals) (p : PlaceId) : Nat → List Ty → Except Err Locals
-  | _, [] => .ok L
-  | i, t :: ts =>
-    if t.linear then
-      match L (i :: p) with
-      | none => .error (.keyError (i :: p))
-      | some _ => popLinear (L.pop (i :: p)) p (i + 1) ts
-    else popLinear L p (i + 1) ts
-
-mutual
-/-- `DFContainer.__getitem__`; returns (wire, locals, next node index, emitted ops) -/
-def getitem (L : Locals) (n : Nat) (p : PlaceId) : Ty → Except Err (Wire × Locals × Nat × List Op)
-  | .leaf _ _ =>
-    match L p with
-    | some w => .ok (w, L, n, [])
-    | none => .error (.noPort p)
-  | .node _ cs =>
-    match L p with
-    | some w => .ok (w, L, n, [])
-    | none =>
-      match getitemList L n p 0 cs with
-      | .error e => .error e
-      | .ok (ws, L1, n1, ops1) =>
-        match popLinear L1 p 0 cs with
-        | .error e => .error e
-        | .ok L2 => .ok (⟨n1, 0⟩, L2.set p ⟨n1, 0⟩, n1 + 1, ops1 ++ [.make n1 ws])
-/-- `[self[child] for child in children]`, children numbered from `i` -/
-def getitemList (L : Locals) (n : Nat) (p : PlaceId) (i : Nat) :
-    List Ty → Except Err (List Wire × Locals × Nat × List Op)
-  | [] => .ok ([], L, n, [])
-  | t :: ts =>
-    match getitem L n (i :: p) t with
-    | .error e => .error e
-    | .ok (w, L1, n1, o1) =>
-      match getitemList L1 n1 p (i + 1) ts with
-      | .error e => .error e
-      | .ok (ws, L2, n2, o2) => .ok (w :: ws, L2, n2, o1 ++ o2)
-end
-
-/-- the places enclosing `p` (its proper ancestors), nearest first: `[g,f,x] ↦ [[f,x],[x]]` -/
-def enclosing : PlaceId → List PlaceId
-  | [] => []
-  | [_] => []
-  | _ :: r :: rest => (r :: rest) :: enclosing (r :: rest)
-
-/-- the `while isinstance(enclosing, FieldAccess | TupleAccess)` loop of `__setitem__` -/
-def popEnclosing (L : Locals) (p : PlaceId) : Locals := (enclosing p).foldl Locals.pop L
-
-mutual
-/-- `DFContainer.__setitem__`; `isRet` = the place is a `%ret…` variable; returns
-    (locals, next node index, emitted ops) -/
-def setitem (L : Locals) (n : Nat) (p : PlaceId) (isRet : Bool) (w : Wire) :
-    Ty → Locals × Nat × List Op
-  | .leaf _ _ => ((popEnclosing L p).set p w, n, [])
-  | .node _ cs =>
-    if isRet then ((popEnclosing L p).set p w, n, [])
+/-- for every successor, the places it receives in order: the branch's `TupleSum` variant row (if that
+    path is taken) followed by the block's ordinary outputs.  `exits[i]`: successor `i` is the exit
+    block.  `none`: an assertion of `compile_bb` fails (a branching block with an edge to the exit). -/
+def deliver (s : Sig) (exits : List Bool) : Option (List (List Place)) :=
+  match s.outRows with
+  | [] => some []
+  | [row] => some [if exits.headD false then row else sortVars row]
+  | first :: rest =>
+    if exits.any id then none
+    else if rest.all (sameIds first) then some ((first :: rest).map fun _ => sortVars first)
     else
-      let (L1, n1, o1) := setitemList (popEnclosing L p) (n + 1) p 0 n cs
-      (L1.pop p, n1, .unpack n w cs.length :: o1)
-/-- `for child, child_port in zip(children, unpack): self[child] = child_port`; `u` is the
-    UnpackTuple node, children numbered from `i` -/
-def setitemList (L : Locals) (n : Nat) (p : PlaceId) (i : Nat) (u : Nat) :
-    List Ty → Locals × Nat × List Op
-  | [] => (L, n, [])
-  | t :: ts =>
-    let (L1, n1, o1) := setitem L n (i :: p) false ⟨u, i⟩ t
-    let (L2, n2, o2) := setitemList L1 n1 p (i + 1) u ts
-    (L2, n2, o1 ++ o2)
-end
+      let common := sortVars (first.filter fun p => !p.droppable)
+      some ((first :: rest).map fun row => (sortVars row).filter (·.droppable) ++ common)
 
-mutual
-/-- all place ids of the tree rooted at `p` (root first, then children left to right) -/
-def places (p : PlaceId) : Ty → List PlaceId
-  | .leaf _ _ => [p]
-  | .node _ cs => p :: placesList p 0 cs
-def placesList (p : PlaceId) (i : Nat) : List Ty → List PlaceId
-  | [] => []
-  | t :: ts => places (i :: p) t ++ placesList p (i + 1) ts
-end
+/-- `return_var(i)` -/
+def retVar (i : Nat) (droppable : Bool) : Place := ⟨"%ret" ++ toString i, droppable⟩
 
-/-- the type at a selector path (outermost selector first) below a type -/
-def Ty.at : Ty → List Nat → Option Ty
-  | t, [] => some t
-  | .leaf _ _, _ :: _ => none
-  | .node _ cs, i :: s => match cs[i]? with
-    | some t => t.at s
-    | none => none
-
-/-- place id of the sub-place of `p` addressed by the selector path `s` (outermost first) -/
-def sub (p : PlaceId) (s : List Nat) : PlaceId := s.reverse ++ p
-
-/-- one step of a compilation script on the sub-places of a variable -/
-inductive SOp where
-  | set (s : List Nat) (w : Wire)      -- `dfg[sub-place] = w`
-  | get (s : List Nat)                 -- `dfg[sub-place]`
-  deriving Repr, Inhabited
-
-/-- run a script on the (non-return) variable `r : T`; returns the wires of the reads -/
-def runScript (T : Ty) (r : PlaceId) :
-    List SOp → Locals → Nat → Except Err (List Wire × Locals × Nat × List Op)
-  | [], L, n => .ok ([], L, n, [])
-  | .set s w :: rest, L, n =>
-    match T.at s with
-    | none => .error (.noPort (sub r s))
-    | some t' =>
-      match runScript T r rest (setitem L n (sub r s) false w t').1 (setitem L n (sub r s) false w t').2.1 with
-      | .error e => .error e
-      | .ok (ws, L2, n2, o2) => .ok (ws, L2, n2, (setitem L n (sub r s) false w t').2.2 ++ o2)
-  | .get s :: rest, L, n =>
-    match T.at s with
-    | none => .error (.noPort (sub r s))
-    | some t' =>
-      match getitem L n (sub r s) t' with
-      | .error e => .error e
-      | .ok (w, L1, n1, o1) =>
-        match runScript T r rest L1 n1 with
-        | .error e => .error e
-        | .ok (ws, L2, n2, o2) => .ok (w :: ws, L2, n2, o1 ++ o2)
+/-- `insert_return_vars`: the new exit input row and the new output row of a predecessor of the exit;
+    `tys[i]` = droppability of the i-th return type -/
+def insertReturnVars (tys : List Bool) (exitIn predOut : List Place) : List Place × List Place :=
+  let rv := tys.zipIdx.map fun (d, i) => retVar i d
+  (rv ++ exitIn, rv ++ predOut)
 
 end GuppyVerif.Wiring
